@@ -38,7 +38,7 @@ impl Scenario for MemLimit {
         "fault_enumeration"
     }
     fn rule(&self) -> &'static str {
-        "per case one DecodeWithMemTracking subject (built-in, derived, generic; all catalogue subjects that implement it), one byte string (honest encoding of a generated value, damaged, truncated, random) and one benign source; step 1: tracked usage U = MemTrackingInput(usize::MAX).used_mem() and the unlimited result R; step 2: EVERY limit L in 0..=U+1 when U <= 600 (quick) / 4096 (thorough), else L in {0,1,U/2,U-1,U,U+1,2U,usize::MAX}, each through T::decode_with_mem_limit on the slice and through the MemTrackingInput layer over the drawn source (alone, under an outer depth-limit(max) wrapper, and above an inner CountedInput); oracle: result(L) in {R, Err}; R Ok and L > U => equal to R; U > 0 and L <= U => Err; U == 0 for subjects without heap containers; U >= bytes of decoded data the value holds on the heap (len*size_of elem, boxed size, string length, half of len*size_of for tree maps/sets, summed over nesting); U identical across sources; one sub-run per (L, entry point); non-trivial = sub-runs with L <= U+1 and U > 0 (an announcement can fail) "
+        "per case one DecodeWithMemTracking subject (built-in, derived, generic; all catalogue subjects that implement it), one byte string (honest encoding of a generated value, damaged, truncated, random) and one benign source; step 1: tracked usage U = MemTrackingInput(usize::MAX).used_mem() and the unlimited result R; step 2: EVERY limit L in 0..=U+1 when U <= 600 (quick) / 4096 (thorough), else L in {0,1,U/2,U-1,U,U+1,2U,usize::MAX}, each through T::decode_with_mem_limit on the slice and through the MemTrackingInput layer over the drawn source (alone; inside and outside a depth-limit(max) wrapper; inside and outside a CountedInput); oracle: result(L) in {R, Err}; R Ok and L > U => equal to R; U > 0 and L <= U => Err; U == 0 for subjects without heap containers; U >= bytes of decoded data the value holds on the heap (len*size_of elem, boxed size, string length, half of len*size_of for tree maps/sets, summed over nesting); U identical across sources; one sub-run per (L, entry point); non-trivial = sub-runs with L <= U+1 and U > 0 (an announcement can fail) "
     }
     fn cases(&self, tier: Tier) -> u64 {
         tiered(tier, 60_000, 6_000_000)
@@ -114,11 +114,15 @@ impl Scenario for MemLimit {
             st.note(salt(&[s.name, "direct", &bucket_l(l, u), if d.res.is_ok() { "ok" } else { "err" }]), &dtr, binding);
             judge(s.name, &bytes, "decode_with_mem_limit", l, u, &r.res, r.taken, &d.res, d.taken)?;
             // through layers over the drawn source: alone / under depth(max) / above counted
-            let variant = l % 3;
+            // layer lists are innermost-first: the last layer is the one the decoder talks to
+            let variant = l % 5;
             let mut ls = src.clone();
             ls.layers = match variant {
                 0 => vec![Layer::Mem(l as u64)],
                 1 => vec![Layer::Depth(u32::MAX), Layer::Mem(l as u64)],
+                // = T::decode_with_depth_limit(max, &mut MemTrackingInput::new(input, l))
+                2 => vec![Layer::Mem(l as u64), Layer::Depth(u32::MAX)],
+                3 => vec![Layer::Counted, Layer::Mem(l as u64)],
                 _ => vec![Layer::Mem(l as u64), Layer::Counted],
             };
             let o = (s.decode)(&bytes, &ls, Mode::Decode);
